@@ -129,7 +129,7 @@ def run_case(seed, tier, case_no):
     opts = {"tolerance_mva": tol}
     if g.B(0.15):
         opts["numba"] = False
-    if g.B(0.15):
+    if g.B(0.08):
         opts["trafo_loading"] = "power"
     digest = common.net_digest(net, {"o": opts})
     sample = {"balanced": balanced, "net": netgen.describe(net), "vn_kv": sorted(set(net.bus.vn_kv), reverse=True), "options": opts,
@@ -145,7 +145,10 @@ def run_case(seed, tier, case_no):
     except Exception as e:  # noqa
         if _n_supplied(base) < 2:
             return common.case(digest, nontrivial=False, tags=tags | {"degenerate"}, skipped="degenerate_single_bus", sample=sample)
-        v = common.viol("runpp_3ph raised %s: %s" % (type(e).__name__, str(e)[:200]), exception=type(e).__name__, seed=seed)
+        # trafo_loading="power": (3, n_trafo) / sn_mva[:, newaxis] in the 3ph transformer results cannot broadcast for n_trafo = 2 or > 3
+        mech = "trafo_loading_power_3ph_broadcast" if (isinstance(e, ValueError) and "broadcast" in str(e) and len(net.trafo) not in (1, 3)
+                                                       and opts.get("trafo_loading") == "power") else None
+        v = common.viol("runpp_3ph raised %s: %s" % (type(e).__name__, str(e)[:200]), mechanism=mech, exception=type(e).__name__, seed=seed)
         return common.case(digest, nontrivial=False, tags=tags, violations=[v], sample=sample)
     if net.res_bus_3ph.vm_a_pu.notna().sum() < 2:
         return common.case(digest, nontrivial=False, tags=tags | {"degenerate"}, skipped="degenerate_single_bus", sample=sample)
@@ -196,22 +199,48 @@ def net_tags(net, balanced):
 
 
 # ------------------------------------------------------------------------------------------------ clause 2b
+def _eg_seq_admittance_gap(net, b):
+    """sum over the in-service ext_grids at bus b of (y0 - y2) in MVA at 1 p.u. per phase, from the documented short-circuit data
+    (z = c/(s_sc/3), c = 1.1, split by rx_max; zero sequence: x0 = x0x_max*x, r0 = r0x0_max*x0)"""
+    dy = 0j
+    eg = net.ext_grid[(net.ext_grid.bus == b) & net.ext_grid.in_service]
+    for _, e in eg.iterrows():
+        x = 1.1 / (e.s_sc_max_mva / 3.) / np.sqrt(e.rx_max ** 2 + 1)
+        x0 = e.x0x_max * x
+        dy += 1 / (e.r0x0_max * x0 + 1j * x0) - 1 / (e.rx_max * x + 1j * x)
+    return dy
+
+
 def check_nodal_balance(net, extra):
     sn = float(net.sn_mva)
     slack = _slack_buses(net)
+    rb = net.res_bus_3ph
     bad = {}
     for b, m, scale, cons in nodal_balance_3ph(net):
-        for k, p in enumerate(PH):
-            extra["balance_bus_phase"] += 1
-            bound = 1e-4 * sn + 1e-6 * scale[k]
-            err = abs(m[k]) if np.isfinite(abs(m[k])) else np.inf
-            extra["stat_balance_rel_max"] = max(extra.get("stat_balance_rel_max", 0.), err / bound)
-            if err > bound:
-                # the ext_grid result lacks exactly the consumption of the P/Q elements connected to its own bus
-                mech = "ext_grid_3ph_ignores_load_at_slack_bus" if (b in slack and abs(cons[k]) > bound and
-                                                                    abs(m[k] + cons[k]) <= bound) else None
-                if mech not in bad or err / bound > bad[mech][0]:
-                    bad[mech] = (err / bound, b, p, m[k], bound)
+        bound = 1e-4 * sn + 1e-6 * scale
+        err = np.where(np.isfinite(np.abs(m)), np.abs(m), np.inf)
+        extra["balance_bus_phase"] += 3
+        if b not in slack:
+            extra["stat_balance_rel_max"] = max(extra.get("stat_balance_rel_max", 0.), (err / bound).max())
+        if (err <= bound).all():
+            continue
+        mechs = [None]
+        if b in slack:
+            # candidate explanations of a mismatch at an ext_grid bus (both are defects of the ext_grid result rows only):
+            # A the ext_grid rows lack the consumption of the P/Q elements connected to the ext_grid bus
+            # B the zero-sequence shunt of the ext_grid is removed with the negative-sequence admittance: a shunt y0-y2 stays
+            v = np.array([rb.at[b, "vm_%s_pu" % p] * np.exp(1j * np.deg2rad(rb.at[b, "va_%s_degree" % p])) for p in PH])
+            pa, pb = -cons, v * np.conj(_eg_seq_admittance_gap(net, b) * v.sum() / 3.)
+            cand = {"ext_grid_3ph_ignores_load_at_slack_bus": pa, "ext_grid_3ph_zero_seq_shunt_residual": pb}
+            for names in (("ext_grid_3ph_ignores_load_at_slack_bus",), ("ext_grid_3ph_zero_seq_shunt_residual",), tuple(cand)):
+                pred = sum(cand[n] for n in names)
+                if (np.abs(m - pred) <= bound + 1e-6 * np.abs(pred)).all():
+                    mechs = [n for n in names if (np.abs(cand[n]) > bound / 2).any()] or [None]
+                    break
+        k = int((err / bound).argmax())
+        for mech in mechs:
+            if mech not in bad or err[k] / bound[k] > bad[mech][0]:
+                bad[mech] = (err[k] / bound[k], b, PH[k], m[k], bound[k])
     return [common.viol("per-phase nodal balance violated at bus %d phase %s: mismatch %.3e%+.3ej MVA (bound %.1e)" % (
         b, p, m.real, m.imag, bound), mechanism=mech, bus=b, phase=p, mismatch=[m.real, m.imag]) for mech, (_, b, p, m, bound) in bad.items()]
 
@@ -314,7 +343,7 @@ def check_balanced(net, base, tol, extra):
             extra["bal_branch_cmp" if tab != "bus" else "bal_bus_cmp"] += int(live.sum())
             d = np.abs(a - b)
             rel = np.where(np.isnan(d), np.inf, d) / (1e-6 * sn + 1e-6 * np.abs(np.nan_to_num(b)))
-            if live.any():
+            if live.any() and tab in ("line", "trafo"):
                 extra["stat_bal_ds_rel_max"] = max(extra.get("stat_bal_ds_rel_max", 0.), rel[live].max())
             for i in np.flatnonzero(live & (rel > 1.)):
                 bad.append((rel[i], "3*res_%s_3ph.%s = %.9g but runpp %s = %.9g (row %s)" % (tab, c3 % p, a[i], c1, b[i], net[tab].index[i]),
